@@ -31,6 +31,8 @@ def obligations():
         Obl("C19.mdcrd.partition", "xh", "harness.c19", "mdcrd_partition", ["mdtraj.formats.mdcrd.MDCRDTrajectoryFile.write"], "n<=4 frames, every split 0<=a<=b<=n, with/without box",
             "three successive writes produce byte-identical output to one write", 180),
         Obl("C19.xyz.partition", "xh", "harness.c19", "xyz_partition", ["mdtraj.formats.xyzfile.XYZTrajectoryFile.write"], "n<=4, every split", "same, xyz", 180),
+        Obl("C19.pdb.refusal_atomic", "xh", "harness.c19", "pdb_refusal_atomic", ["mdtraj.formats.pdb.pdbfile.PDBTrajectoryFile.write"], "k<=2 models already written; refusal for wrong atom count / NaN / infinity / b-factor range; with / without cell",
+            "a refused write leaves the text unchanged and the file continues as if it had not happened (no stray MODEL record)", 300),
         Obl("C19.gro_pdb.partition", "xh", "harness.c19", "gro_pdb_partition", ["mdtraj.formats.gro.GroTrajectoryFile.write", "mdtraj.formats.pdb.pdbfile.PDBTrajectoryFile.write"], "n<=4 frames, every split, with/without cell; gro and pdb",
             "text written in pieces is byte-identical to the one-shot text; one title / MODEL per frame, one CRYST1", 300),
         Obl("C19.lammpstrj.partition", "xh", "harness.c19", "lammpstrj_partition", ["mdtraj.formats.lammpstrj.LAMMPSTrajectoryFile.write", "mdtraj.formats.lammpstrj.LAMMPSTrajectoryFile.write_box"],
